@@ -172,6 +172,31 @@ def install_source(lib):
     C = lib.contracts
     C["Source"]["reset"] = mk_reset(lib, "Source", ("out",), extra_none=("inter_arrival_time",))
 
+    # ---- Source.__init__: a non-blocking source with zero inter-arrival time is rejected (C20)
+    def iat_kind_ok(d):
+        return z3.Or(d.tag == V.T_FUNC, d.tag == V.T_GEN, d.tag == V.T_INT, d.tag == V.T_FLOAT, d.tag == V.T_BOOL, d.tag == V.T_NONE)
+
+    def src_ok(c):
+        iat, bl = c.args["inter_arrival_time"], c.args["blocking"]
+        zero = z3.And(iat.is_num(), iat.num == 0)
+        return z3.And(c.args["id"].tag == V.T_STR, z3.Not(z3.And(zero, z3.Not(V.truth(bl)))), iat_kind_ok(iat))
+    C["Source"]["__init__"] = FnContract(
+        "__init__", [("env", ("env",), None), ("id", ("dyn",), None), ("in_edges", ("opt", ("list", ("obj", "edge"))), NONE),
+                     ("out_edges", ("opt", ("list", ("obj", "edge"))), NONE), ("item_length", ("num", "real"), Num(1)),
+                     ("flow_item_type", ("str",), VStr("item")), ("inter_arrival_time", ("dyn",), V.dyn_of(Num(0))),
+                     ("blocking", ("dyn",), V.dyn_of(VBool(False))), ("out_edge_selection", ("dyn",), V.dyn_of(VStr("FIRST_AVAILABLE")))],
+        excs=[ExcCase("TypeError", lambda c: c.args["id"].tag != V.T_STR, "id-not-a-string", unchanged=False, props=("C20",)),
+              ExcCase("ValueError", lambda c: z3.And(c.args["id"].tag == V.T_STR, z3.Not(src_ok(c))),
+                      "zero-inter-arrival-for-a-non-blocking-source-or-bad-type", unchanged=False, props=("C20",))],
+        normal_requires=src_ok,
+        post=lambda c: [Clause("counters-start-at-zero", lambda c: z3.And(c.new.f["stats.num_item_generated"].t == 0,
+                                                                          c.new.f["stats.num_item_discarded"].t == 0), ("C18",)),
+                        Clause("starts-in-set-up", lambda c: c.new.f["state"].t == sc("SETUP_STATE"), ("C17",)),
+                        Structural("starts-its-behaviour-process", lambda c: len(
+                            [x for x in c.new.ghost.get("spawned", []) if x[0] == "behaviour"]) == 1, ("C20",))],
+        uses_inv=False, keeps_inv=False, is_init=True, props=("C20", "C18", "C17"))
+    C["Source"]["__init__"].no_frame = True
+
     # ---- Source.behaviour
     fields = ("state", "stats.last_state_change_time", TT + "SETUP_STATE", TT + "GENERATING_STATE", TT + "BLOCKED_STATE",
               "stats.num_item_generated", "stats.num_item_discarded", "out_edge_events")
